@@ -33,12 +33,29 @@ def contact_classes(ctx):
     return [ci for ci in ctx.model.all_classes() if ci.rel.startswith(CONTACT_FILES) and "g_N" in ci.methods]
 
 
+# K10 pairs (primal, derivative, mode, multiplier factor) per contact class and the atoms that vanish under the property's
+# premise (sphere-plane: plane orientation constant in time => n_dot = n_ddot = t1t2_dot = Omega_F = Psi_F = 0).
+# Sphere2Sphere's time pairs are left to C06.R5 (n_dot / t1t2_dot do not exist there: known findings F24/F25).
+K10 = {
+    "Sphere2Plane": ([("g_N", "g_N_q", "q", None), ("g_N", "g_N_dot", "t", None), ("g_N_dot", "g_N_dot_q", "q", None), ("g_N_dot", "g_N_dot_u", "u", None),
+                      ("g_N_dot", "g_N_ddot", "t", None), ("gamma_F", "gamma_F_q", "q", None), ("gamma_F", "gamma_F_u", "u", None),
+                      ("gamma_F", "gamma_F_dot", "t", None), ("gamma_F_dot", "gamma_F_dot_q", "q", None), ("gamma_F_dot", "gamma_F_dot_u", "u", None),
+                      ("g_N_dot_u", "Wla_N_q", "q", "la_N"), ("gamma_F_u", "Wla_F_q", "q", "la_F")],
+                     ("n_dot", "n_ddot", "t1t2_dot", "Omega_F_tilde", "Psi_F_tilde")),
+    "Sphere2Sphere": ([("g_N", "g_N_q", "q", None), ("g_N_dot", "g_N_dot_u", "u", None), ("gamma_F", "gamma_F_q", "q", None), ("gamma_F", "gamma_F_u", "u", None),
+                       ("g_N_dot_u", "Wla_N_q", "q", "la_N"), ("gamma_F_u", "Wla_F_q", "q", "la_F")], ()),
+}
+
+
 def run(ctx):
     rep = ctx.rep
     rep.rule("C06.R1", "dispatch totality of contact methods per contact class", 28)
     rep.rule("C06.R2", "attribute resolution / callable misuse in reachable contact callables", 60)
     rep.rule("C06.R3", "System-internal calls of contact methods match signatures", 1)
     rep.rule("C06.R4", "W_N = g_N_dot_u.T and W_F = gamma_F_u.T by construction", 4)
+    rep.rule("C06.R7", "two-body block typing of Sphere2Sphere's derivative blocks (K9)", 15)
+    rep.rule("C06.R8", "relative polarity of the two spheres' terms in the normal-gap chain and in the slip chain (K9)", 14)
+    rep.rule("C06.R6", "Leibniz image of the primal's factor monomials equals the derivative routine's monomials (K10)", 15)
     sm = sysmodel.SystemModel(ctx)
     sysmodel.codefinition(ctx, sm, "C06.R1", family=lambda p, m: sysmodel.is_contact(m), require_live=False)
     sysmodel.internal_calls(ctx, sm, "C06.R3", family=lambda caller, callee: sysmodel.is_contact(callee) or caller in ("chi_N", "xi_N", "xi_F"))
@@ -81,8 +98,29 @@ def run(ctx):
                         f"{ci.rel}:{fn.lineno}")
             else:
                 rep.note(f"C06.R4: {ci.qual}.{w} does not delegate to {comp}; transposition not decided structurally")
-    from .. import deriv
+    from .. import deriv, support
     deriv.run_c06(ctx)
+    # R7 / R8 K9 (Sphere2Sphere couples two bodies)
+    from .. import twobody
+    for ci in classes:
+        if ci.qual != "Sphere2Sphere":
+            continue
+        for name, fn in sorted(ci.methods.items()):
+            if name in ("__init__", "assembler_callback", "export", "step_callback"):
+                continue
+            twobody.check_typing(rep, "C06.R7", f"{ci.rel}:{ci.qual}.{name}", ci.rel, fn)
+        twobody.check_polarity(rep, "C06.R8", ci, ["g_N_dot", "g_N_q", "g_N_dot_u", "g_N_ddot", "Wla_N_q", "n", "n_q1_q2"])
+        twobody.check_polarity(rep, "C06.R8", ci, ["__gamma_F", "__gamma_F_q", "gamma_F_u", "gamma_F_dot", "Wla_F_q"])
+    # R6 K10
+    for ci in classes:
+        view = protocol.ClassView(ctx, ci)
+        pairs, zero = K10.get(ci.qual, ([], ()))
+        for p, d, mode, extra in pairs:
+            c, fn = view.method(d)
+            if fn is None:
+                bs = view.bodies(d)
+                fn = bs[0][1] if bs else None
+            support.check(rep, "C06.R6", view, f"{ci.rel}:{ci.qual}.{d}", ci.rel, p, d, mode, extra, lineno=getattr(fn, "lineno", 0), zero=zero)
 
 
 S2P = "cardillo/contacts/sphere2plane.py"
@@ -123,8 +161,32 @@ MUTANTS += [
     dict(id="c06-m14", what="Sphere2Sphere.__gamma_F_q forgets the tangent derivatives t1t2_q1_q2", file=S2S,
          old="        t1_q1, t1_q2, t2_q1, t2_q2 = self.t1t2_q1_q2(t, q)\n\n        v_P1 = self.v_C1(t, q, u)", new="        t1_q1 = t1_q2 = t2_q1 = t2_q2 = np.zeros((3, 1))\n\n        v_P1 = self.v_C1(t, q, u)", expect="C06.R5"),
 ]
+MUTANTS += [
+    dict(id="c06-k10-seed", canary=True, what="[seeded by sub-agent] Sphere2Sphere.gamma_F_u: lever arm of sphere 2 computed with radius1", file=S2S,
+         old="        J_P2 = self.J_C2(t, q) - ax2skew(-self.radius2 * n) @ self.J2_R(t, q)\n\n        gamma_F_u = np.zeros(",
+         new="        J_P2 = self.J_C2(t, q) - ax2skew(-self.radius1 * n) @ self.J2_R(t, q)\n\n        gamma_F_u = np.zeros(", expect="C06.R6"),
+    dict(id="c06-k10-2", what="Sphere2Plane.gamma_F_dot_q multiplies Psi_q with the rate lever arm (term with a wrong factor; all companions still referenced)", file=S2P,
+         old="            - r_PS_tilde @ self.Psi_q(t, q, u, u_dot)\n            - r_PS_dot_tilde @ self.Omega_q(t, q, u)",
+         new="            - r_PS_dot_tilde @ self.Psi_q(t, q, u, u_dot)\n            - r_PS_tilde @ self.Omega_q(t, q, u)", expect="C06.R6"),
+    dict(id="c06-k10-3", what="Sphere2Plane.Wla_F_q drops the J_P_q term while J_P_q stays referenced through a dead local", file=S2P,
+         old="        J_S_q = self.J_P_q(t, q) + self.r * np.einsum(", new="        J_P_q = self.J_P_q(t, q)\n        J_S_q = self.r * np.einsum(", expect="C06.R6"),
+]
 BLIND_SPOTS += ["a dropped chain-rule term whose companion is still referenced elsewhere in the same derivative routine (function granularity)"]
+MUTANTS += [
+    dict(id="c06-k9-1", canary=True, what="Sphere2Sphere.Wla_N_q: sign of the (u2, q2) geometric block flipped", file=S2S,
+         old="        Wla_N_q[self.nu1 :, self.nq1 :] = np.einsum(\"ijk,i->jk\", J_C2_q2, n) * la_N", new="        Wla_N_q[self.nu1 :, self.nq1 :] = -np.einsum(\"ijk,i->jk\", J_C2_q2, n) * la_N", expect="C06.R8"),
+    dict(id="c06-k9-2", what="Sphere2Sphere.Wla_N_q: the (u2, q1) block is built with body 1's Jacobian", file=S2S,
+         old="        Wla_N_q[self.nu1 :, : self.nq1] += J_C2.T @ nq1 * la_N", new="        Wla_N_q[self.nu1 :, : self.nq1] += J_C1.T @ nq1 * la_N", expect="C06.R7"),
+]
+MUTANTS += [
+    dict(id="c06-k9-3", what="Sphere2Sphere.gamma_F_u: lever arm of sphere 2 loses its minus sign (r_C2P2 = -radius2 n)", file=S2S,
+         old="        J_P2 = self.J_C2(t, q) - ax2skew(-self.radius2 * n) @ self.J2_R(t, q)\n\n        gamma_F_u = np.zeros(",
+         new="        J_P2 = self.J_C2(t, q) - ax2skew(self.radius2 * n) @ self.J2_R(t, q)\n\n        gamma_F_u = np.zeros(", expect="C06.R8"),
+]
 NEUTRAL = [
+    dict(id="c06-n2", canary=True, what="lever arms hoisted into locals (the seeded fault's neutral twin)", file=S2S,
+         old="        J_P1 = self.J_C1(t, q) - ax2skew(self.radius1 * n) @ self.J1_R(t, q)\n        J_P2 = self.J_C2(t, q) - ax2skew(-self.radius2 * n) @ self.J2_R(t, q)\n\n        gamma_F_u = np.zeros(",
+         new="        r_C1P1_tilde = ax2skew(self.radius1 * n)\n        r_C2P2_tilde = ax2skew(-self.radius2 * n)\n        J_P1 = self.J_C1(t, q) - r_C1P1_tilde @ self.J1_R(t, q)\n        J_P2 = self.J_C2(t, q) - r_C2P2_tilde @ self.J2_R(t, q)\n\n        gamma_F_u = np.zeros("),
     dict(id="c06-n1", canary=True, what="local alias for the lambda result", file=S2P,
          old="        J_S = self.J_P(t, q) - r_PS_tilde @ self.J_R(t, q)\n        return self.A.T @ self.t1t2(t) @ J_S",
          new="        J_P = self.J_P(t, q)\n        J_S = J_P - r_PS_tilde @ self.J_R(t, q)\n        return self.A.T @ self.t1t2(t) @ J_S"),
